@@ -1662,6 +1662,9 @@ impl Fs {
         // Check parent exists
         if let Some(parent) = path.parent() {
             if !parent.as_os_str().is_empty() && !self.dir_exists(parent) {
+                if self.ancestor_is_file(path) {
+                    return Err("Not a directory");
+                }
                 return Err("No such file or directory");
             }
         }
@@ -1682,6 +1685,9 @@ impl Fs {
     /// Remove an empty directory.
     pub(crate) fn rmdir(&mut self, path: &Path) -> Result<(), &'static str> {
         if !self.dir_exists(path) {
+            if self.file_exists(path) || self.ancestor_is_file(path) {
+                return Err("Not a directory");
+            }
             return Err("No such file or directory");
         }
 
@@ -1740,6 +1746,14 @@ impl Fs {
         false
     }
 
+    /// True if a proper ancestor of `path` exists but is a regular file
+    /// (POSIX: ENOTDIR).
+    pub(crate) fn ancestor_is_file(&self, path: &Path) -> bool {
+        path.ancestors()
+            .skip(1)
+            .any(|a| !a.as_os_str().is_empty() && self.file_exists(a))
+    }
+
     /// Check if parent directory exists for a file path.
     pub(crate) fn parent_exists(&self, path: &Path) -> bool {
         match path.parent() {
@@ -1768,9 +1782,27 @@ impl Fs {
 
     /// Rename a file, directory, or symlink.
     pub(crate) fn rename(&mut self, from: &Path, to: &Path) -> Result<(), &'static str> {
+        // Resolve the source's parent first, then the destination's (POSIX order)
+        if self.ancestor_is_file(from) {
+            return Err("Not a directory");
+        }
+        if !self.parent_exists(from) {
+            return Err("No such file or directory");
+        }
+        if self.ancestor_is_file(to) {
+            return Err("Not a directory");
+        }
         // Check destination parent exists
         if !self.parent_exists(to) {
             return Err("No such file or directory");
+        }
+        // The destination is an ancestor of the source: necessarily a
+        // non-empty directory (ENOTEMPTY, whatever the source is)
+        if from != to
+            && from.starts_with(to)
+            && (self.file_exists(from) || self.dir_exists(from) || self.symlink_exists(from))
+        {
+            return Err("Directory not empty");
         }
 
         // Try renaming a file
